@@ -22,6 +22,9 @@ Three kinds of case.
 `hf`   framing of that hand-off under the configuration dimension: unix-socket flag set or not x
        connections accepted on a TCP listener (--ports) or on the unix listener; sender and receiver
        must agree on whether an address precedes the descriptor; vs `Modes.framedPipe` / `recvFramed`.
+`q`    the acceptor -> local executor hand-off queue: REAL `NonBlockingQueue`, N puts (N in {0, 1, 99,
+       100, 101, 250, 1000} and mixed put/get sequences) then gets: all back, in order, then Empty;
+       vs `Modes.qrun`.
 `live` LIVE differential run: one scenario of the corpus against real `proxy.Proxy(...)` instances
        in the three modes (acceptors = workers = nw) on loopback with in-process origin servers;
        per mode the canonical transcript (per client: bytes received then EOF/RST; per origin
@@ -61,6 +64,7 @@ THEOREMS = [
     'Px.Modes.C17_flush_vs_deferral', 'Px.Modes.C17_raised_pending_differs', 'Px.Modes.C17_raised_difference',
     'Px.Modes.C17_handoff_atomic', 'Px.Modes.C17_handoff_needs_lock',
     'Px.Modes.C17_handoff_framing', 'Px.Modes.C17_handoff_framing_mismatch', 'Px.Idle.C17_idle_reaping_bounded',
+    'Px.Modes.C17_handoff_queue_lossless', 'Px.Modes.C17_handoff_queue_bounded_loses',
 ]
 NO_FORK = True
 RULE = ('h: conversation script (rounds of readiness + recv/send outcomes, is_inactive clock outcomes, _flush '
@@ -1064,6 +1068,54 @@ def run_hf(case):
 
 
 # ==========================================================================
+# q: the acceptor -> local executor hand-off queue (NonBlockingQueue)
+# ==========================================================================
+
+def run_q(case):
+    """REAL proxy.common.backports.NonBlockingQueue: the case's puts (numbered consecutively) and gets"""
+    import queue as _q
+    from proxy.common.backports import NonBlockingQueue
+    nq = NonBlockingQueue()
+    nxt, got, empty = 0, [], 0
+    for op, n in case['ops']:
+        for _ in range(n):
+            if op == 'p':
+                nq.put(nxt)
+                nxt += 1
+            else:
+                try:
+                    got.append(nq.get())
+                except _q.Empty:
+                    empty += 1
+    left = 0
+    while True:
+        try:
+            nq.get()
+            left += 1
+        except _q.Empty:
+            break
+    inorder = got == list(range(len(got)))
+    line = 'queue got=%d inorder=%d empty=%d left=%d' % (len(got), inorder, empty, left)
+    fail = None
+    if not inorder:
+        fail = 'queue: works not taken in the order they were put (first taken %r)' % (got[:3],)
+    elif len(got) + left != nxt:
+        fail = 'queue: %d of %d works put were never handed over' % (nxt - len(got) - left, nxt)
+    return line, fail
+
+
+def q_cases(rng, big):
+    out = [{'kind': 'q', 'ops': [['p', n], ['g', n + 1]]} for n in (0, 1, 99, 100, 101, 250, 1000)]
+    out.append({'kind': 'q', 'ops': [['p', 150], ['g', 60], ['p', 150], ['g', 300]]})
+    for _ in range(10 if not big else 60):
+        ops = []
+        for _ in range(rng.randint(1, 6)):
+            ops.append([rng.choice('ppg'), rng.choice([0, 1, 2, 50, 99, 100, 101, 102, 199, 200, 201, 333])])
+        out.append({'kind': 'q', 'ops': ops + [['g', 1500]]})
+    return out
+
+
+# ==========================================================================
 # live: real Proxy processes in the three modes
 # ==========================================================================
 
@@ -1335,10 +1387,22 @@ class _Conv:
             self.buf.clear()
             raise EOFError()
 
-    def run(self):
-        s = None
+    def connect(self):
+        """connect now; run() then starts with the first step (scenarios that connect everybody first)"""
         try:
-            if isinstance(self.addr, str):
+            self.pre = socket.create_connection(self.addr, timeout=IO_TIMEOUT)
+        except OSError as e:
+            self.pre = None
+            self.end = 'connect-%s' % errno.errorcode.get(e.errno, e.errno)
+
+    def run(self):
+        s = getattr(self, 'pre', None)
+        if self.end is not None:
+            return
+        try:
+            if s is not None:
+                pass
+            elif isinstance(self.addr, str):
                 s = socket.socket(socket.AF_UNIX, socket.SOCK_STREAM)
                 s.settimeout(IO_TIMEOUT)
                 s.connect(self.addr)
@@ -1400,6 +1464,9 @@ def _dg(x):
 FLAGSETS = {
     'A': [],
     'B': ['--basic-auth', 'user:pass'],
+    # with hundreds of connections waiting (pre_backlog) a loaded machine may need more than the default
+    # 10 s idle timeout before the first request is sent
+    'L': ['--timeout', '60'],
     'T': ['--timeout', '1'],                                    # idle reaping
     'U': ['--unix-socket-path', '@SOCK@', '--ports', '0'],      # unix listener + one extra TCP listener
 }
@@ -1408,7 +1475,7 @@ IDLE_SILENCE = 3.3          # silence exceeds the timeout by > 2 s: beyond the b
 
 
 def scenario_flagset(scn):
-    return 'B' if scn.startswith('auth') else 'T' if scn.startswith('idle') else \
+    return 'B' if scn.startswith('auth') else 'T' if scn.startswith('idle') else 'L' if scn.startswith('pre_') else \
         'U' if scn.startswith('seq_unix') else 'A'
 
 
@@ -1519,6 +1586,10 @@ def build_convs(case, pport):
             # --unix-socket-path + --ports: a TCP client on the extra port, then a unix-socket client, then TCP again
             via = ['tcp', 'unix', 'tcp', 'unix'][i % 4]
             return [('to', via), ('send', get(b'/len/%d' % (sz + i), b'Connection: close\r\n')), ('http',), ('eof',)]
+        if scn == 'pre_backlog':
+            # >= 250 connections accepted before the first request: more works pending for one executor than
+            # the listen backlog (100); every client must still get its response
+            return [('send', b'GET /c17/hello HTTP/1.1\r\nHost: px\r\n\r\n'), ('http',), ('shut',), ('eof',)]
         if scn == 'burst':
             # many connections at the same moment (several acceptors handing off to one worker)
             return [('send', b'GET /burst-%d HTTP/1.1\r\nHost: px\r\n\r\n' % i), ('eof',)]
@@ -1547,6 +1618,7 @@ QUICK_SCENARIOS = [
 
 
 # --timeout 1 (idle reaping next to busy connections) and --unix-socket-path + --ports
+BACKLOG = [('pre_backlog', 1, 260)]      # 1 acceptor, 1 worker
 IDLES = [('idle_busy_neighbours', 1000, 3), ('idle_alone', 1000, 1), ('idle_active_kept', 500, 2),
          ('seq_unix_tcp', 3000, 2), ('seq_unix_tcp', 3001, 4)]
 
@@ -1646,6 +1718,11 @@ def _run_scenario(case, pport, origins, targets=None):
             t.start()
             t.join(SCN_TIMEOUT)
         return _scenario_lines(convs, origins)
+    if case['scn'].startswith('pre_'):
+        # everybody connects, back to back, before anybody sends: the accepted connections pile up in
+        # front of the executor
+        for c in convs:
+            c.connect()
     gate = threading.Barrier(len(convs))
 
     def go(c):
@@ -1836,7 +1913,7 @@ def _prefetch(cases, retry=True):
     for (nw, na, fs), cs in sorted(groups.items()):
         for mode in MODE_ORDER:
             jobs.append((mode, nw, na, fs, cs))
-    n = int(os.environ.get('VERIF_C17_PROCS', str(max(1, min(6, (os.cpu_count() or 2) // 3)))))
+    n = int(os.environ.get('VERIF_C17_PROCS', str(max(1, min(8, (os.cpu_count() or 2) // 2)))))
     n = max(1, min(n, len(jobs)))
     d = tempfile.mkdtemp(prefix='c17-batch-')
     ctx = multiprocessing.get_context('fork')
@@ -1953,6 +2030,8 @@ def impl(case):
         return [run_ho(case)[0]]
     if k == 'hf':
         return [run_hf(case)[0]]
+    if k == 'q':
+        return [run_q(case)[0]]
     _observe_live(case)
     return ['live modes-equal=%d' % (1 if _live_sig(case) is None else 0)]
 
@@ -1968,6 +2047,8 @@ def model_lines(case):
         return ['modes handoff ' + ','.join(str(t) for t in ho_full_sched(case))]
     if k == 'hf':
         return ['modes framing %d %s' % (case['unix'], case['kinds'] or '.')]
+    if k == 'q':
+        return ['modes queue ' + ','.join('%s%d' % (o, n) for o, n in case['ops'])]
     return ['modes live']
 
 
@@ -1986,6 +2067,8 @@ def oracle(case):
         return run_ho(case)[1]
     if k == 'hf':
         return run_hf(case)[1]
+    if k == 'q':
+        return run_q(case)[1]
     _observe_live(case)
     return _live_sig(case)
 
@@ -2163,6 +2246,7 @@ def corpus():
     cs.append(ho_case(2, [0, 1]))
     cs.append({'kind': 'hf', 'unix': 1, 'kinds': 'tu'})        # --unix-socket-path + --ports: TCP client first
     cs.append({'kind': 'hf', 'unix': 0, 'kinds': 'tt'})
+    cs.append({'kind': 'q', 'ops': [['p', 101], ['g', 102]]})       # one more pending than the listen backlog
     cs.append(ho_case(3, [0, 1, 2, 0, 1, 2, 2, 1, 0]))
     # CONNECT, upstream data, select timeout, short write, upstream EOF, drain (the example of C17.lean)
     cs.append(h_case('tunnel', [
@@ -2193,6 +2277,8 @@ def live_cases(tier, rng):
             out.append(live_case(scn, size, conc, 1, 4))
         for scn, size, conc in IDLES:
             out.append(live_case(scn, size, conc, 1))
+        for scn, size, conc in BACKLOG:
+            out.append(live_case(scn, size, conc, 1))
     else:
         for nw in (1, 2, 4):
             for scn, size, conc in QUICK_SCENARIOS:
@@ -2206,7 +2292,10 @@ def live_cases(tier, rng):
                 out.append(live_case(scn, size, conc, nw, 4))
             for scn, size, conc in IDLES + [('idle_busy_neighbours', 2000, 5), ('seq_unix_tcp', 70000, 4)]:
                 out.append(live_case(scn, size, conc, nw))
-            for _ in range(6):
+            if nw == 1:
+                for scn, size, conc in BACKLOG + [('pre_backlog', 2, 400)]:
+                    out.append(live_case(scn, size, conc, 1))
+            for _ in range(3):
                 scn = rng.choice(['fwd_post', 'fwd_get_keep', 'fwd_persistent', 'tunnel_echo', 'fwd_chunked',
                                   'fwd_close_delim', 'mixed'])
                 out.append(live_case(scn, rng.choice([1, 17, 4095, 65536, 65537, 131073, 700001]),
@@ -2217,11 +2306,12 @@ def live_cases(tier, rng):
 def generate(rng, tier):
     big = tier == 'thorough'
     cases = list(h_systematic(3 if not big else 4))
-    for _ in range(1500 if not big else 14000):
+    for _ in range(1500 if not big else 10000):
         cases.append(gen_h(rng))
     for _ in range(6 if not big else 40):
         cases.append(gen_h(rng, big=True))
     cases += ho_cases(rng, big)
+    cases += q_cases(rng, big)
     _prefetch_ho(cases)
     live = live_cases(tier, rng)
     _prefetch(live)
@@ -2241,7 +2331,7 @@ def neighbours(case):
 
 
 def search(rng):
-    out = list(h_systematic(3)) + ho_cases(rng, False)
+    out = list(h_systematic(3)) + ho_cases(rng, False) + q_cases(rng, False)
     _prefetch_ho(out)
     out += [gen_h(rng) for _ in range(1500)]
     live = live_cases('quick', rng)
@@ -2263,6 +2353,8 @@ def describe(case):
         return ['ho k=%d' % case['k']]
     if k == 'hf':
         return ['hf unix=%d' % case['unix'], 'hf n=%d' % len(case['kinds'])]
+    if k == 'q':
+        return ['q puts=%s' % ('<=100' if sum(n for o, n in case['ops'] if o == 'p') <= 100 else '>100')]
     return ['live ' + case['scn'], 'live nw=%d na=%d' % (case['nw'], case.get('na', case['nw'])), 'live conc=%d' % case['conc'],
             'live size ' + ('<64K' if case['size'] < 65536 else '<1M' if case['size'] < 1048576 else '>=1M')]
 
